@@ -117,6 +117,10 @@ struct Answers {
     next_token: AtomicUsize,
     current_token: Mutex<Option<usize>>,
     condvar: Condvar,
+
+    /// Number of event messages fully handled by the hot-reloading thread.
+    #[cfg(assets_manager_verif)]
+    verif_events_handled: AtomicUsize,
 }
 
 impl Answers {
@@ -209,6 +213,11 @@ impl HotReloader {
     pub(crate) fn send_static(&'static self, map: &'static crate::cache::AssetMap) {
         let _ = self.sender.send(CacheMessage::Static(map, self));
     }
+
+    #[cfg(assets_manager_verif)]
+    pub(crate) fn verif_events_handled(&self) -> usize {
+        self.answers.verif_events_handled.load(Ordering::SeqCst)
+    }
 }
 
 impl fmt::Debug for HotReloader {
@@ -257,6 +266,12 @@ fn hot_reloading_thread(
 
         if ready == 1 {
             match events.try_recv() {
+                #[cfg(assets_manager_verif)]
+                Ok(msg) => {
+                    cache.handle_events(msg);
+                    answers.verif_events_handled.fetch_add(1, Ordering::SeqCst);
+                }
+                #[cfg(not(assets_manager_verif))]
                 Ok(msg) => cache.handle_events(msg),
                 Err(crossbeam_channel::TryRecvError::Empty) => (),
                 // We won't receive events anymore, we can stop now
